@@ -316,8 +316,59 @@ func genVariantEncoding(t *rapid.T) (string, []byte) {
 	return c.Variant, b
 }
 
+// subC04Damaged: frames obtained by damaging valid encodings (the generator of C06's acceptance
+// check). Whenever the library's decoder AND the reference decoder, reading as a tolerant
+// receiver, both accept such a frame, the library must return the field values the
+// specification assigns to those bytes - the reference's reading. Acceptance itself is not
+// judged here (C06 does that in one direction, the variants above in the other).
+var subC04Damaged = harness.NewSub("c04-damaged-frame-decodes-as-specified", func(c c06Accept, hd harness.Dialect) error {
+	if fr, err := m.SplitFrames(c.Frame); err != nil || len(fr) != 1 {
+		return nil
+	}
+	if c.Frame[0]&0x20 != 0 && hd.Has("padding-not-honoured:"+string(c.Kind)) {
+		return nil // listed: this type's decoder does not honour RFC 3550 padding
+	}
+	d := gen.PionDialect
+	d.REMBZeroMantissa = hd.Has("remb-zero-mantissa")
+	want, rerr := m.DecodeFrameLenient(c.Frame, c.Kind, d)
+	if rerr != nil {
+		return nil
+	}
+	recv := conv.New(c.Kind)
+	var perr error
+	if p := harness.Guard(func() error { perr = recv.Unmarshal(exactCopy(c.Frame)); return nil }); p != nil {
+		return fmt.Errorf("%s.Unmarshal panicked: %v\nframe: %s", conv.GoType(c.Kind), p, hexs(c.Frame))
+	}
+	if perr != nil {
+		return nil
+	}
+	got, cerr := conv.FromPion(recv)
+	if cerr != nil {
+		return fmt.Errorf("HARNESS: %v", cerr)
+	}
+	if !conv.Equal(want, got) {
+		return fmt.Errorf("%s: a frame accepted by the decoder yields other field values than the specification assigns\n%s\nframe: %s\nderived from a valid encoding by: %v", conv.GoType(c.Kind), conv.Diff(want, got), hexs(c.Frame), c.Muts)
+	}
+	return nil
+})
+
 func TestC04(t *testing.T) {
 	defer harness.Uncaught(t)
+	harness.RapidCheck(t, harness.Scale(5000, 50000), 41, func(rt *rapid.T) {
+		c := genC06Accept(rt)
+		harness.Eval(subC04Damaged.Name, 1)
+		if _, rerr := m.DecodeFrameLenient(c.Frame, c.Kind, gen.PionDialect); rerr == nil {
+			if conv.New(c.Kind).Unmarshal(exactCopy(c.Frame)) == nil {
+				harness.Class("damaged-accepted-by-both:"+string(c.Kind), 1)
+				h := harness.HashBytes(c.Frame)
+				harness.NonTrivialHash(h)
+				if len(c.Frame) <= 40 {
+					harness.Sample(subC04Damaged.Name, h, c)
+				}
+			}
+		}
+		subC04Damaged.Check(rt, c)
+	})
 	harness.RapidCheck(t, harness.Scale(6000, 50000), 4, func(rt *rapid.T) {
 		big := rapid.IntRange(0, 49).Draw(rt, "big?") == 0
 		c := genC04Case(rt, big)
